@@ -223,6 +223,7 @@ type spec struct {
 	ack            bool
 	id             uint
 	items          int
+	filter         string // replies: "" | "partial" (restricted function exchange: the cmd carries function and filter)
 }
 
 func (s spec) isResult() bool { return s.kind == kResult0 || s.kind == kResultE }
@@ -238,6 +239,9 @@ func (s spec) String() string {
 	what := string(s.fn)
 	if s.isResult() {
 		what = fmt.Sprintf("errorNumber=%d", s.errNo)
+	}
+	if s.filter != "" {
+		what += "," + s.filter
 	}
 	return fmt.Sprintf("%s(%s) peer%d/feature%d -> local feature %d ref=%d ack=%v", s.kind, what, s.peer, s.src, s.dst, s.ref, s.ack)
 }
@@ -402,6 +406,11 @@ func (m *machine) build(t world.TB, s spec) (*delivery, model.DatagramType) {
 		cmd, data = model.CmdType{ResultData: rd}, rd
 	} else {
 		cmd, data = payload(s.fn, d.serial, s.id, s.items)
+		switch s.filter {
+		case "partial":
+			cmd.Function = util.Ptr(s.fn)
+			cmd.Filter = []model.FilterType{*model.NewFilterTypePartial()}
+		}
 	}
 	d.data = world.JSON(data)
 	if m.byData[d.data] != nil {
@@ -852,6 +861,9 @@ func (m *machine) drawSpec(t *rapid.T, label string) spec {
 		s.ack = rapid.Bool().Draw(t, label+".ack")
 		s.id = uint(rapid.IntRange(0, 3).Draw(t, label+".id"))
 		s.items = rapid.IntRange(1, 2).Draw(t, label+".items")
+		if rapid.IntRange(0, 2).Draw(t, label+".partial") == 0 {
+			s.filter = "partial"
+		}
 	}
 	return s
 }
